@@ -19,6 +19,9 @@ def clean():
     sh("git checkout -q -- . && git clean -fdq -e target")
 res = {"property": pid, "seed_dir": sd}
 clean()
+# bring the scratch worktree to /repo's current HEAD (fix commits may have landed since the seed was made)
+rc, out = sh("git checkout -q --detach $(git -C /repo rev-parse HEAD)")
+res["worktree_head"] = sh("git rev-parse --short HEAD")[1].strip()
 rc, out = sh(f"git apply {sd}/patch.diff"); res["applies"] = rc == 0
 if rc != 0:
     print(out); print(json.dumps(res)); sys.exit(1)
